@@ -449,7 +449,14 @@ class Engine:
                 if prog.generate():
                     progs.append(prog)
                 else:
-                    self.chk.notes.append(f'generated model did not build: {type(prog.build_exc).__name__}: {prog.build_exc}')
+                    kind = type(prog.build_exc).__name__
+                    self.chk.notes.append(f'generated model did not build: {kind}: {prog.build_exc}')
+                    # the generator only ever produces one kind of unbuildable model: a name that is ambiguous on a scope
+                    # chain (FindError).  Any other refusal is the library refusing a well-formed model with a valid
+                    # configuration (e.g. claim/release events that are declared but called something unusual).
+                    if kind != 'FindError' and self.pid in ('C01', 'C04'):
+                        self.chk.violation(f'a well-formed model with a valid configuration is refused: {kind}: {str(prog.build_exc)[:200]}',
+                                           {'decls': decls, 'cfg': cfg}, {'kind': 'valid-model-refused'})
             except AssertionError:
                 continue
         oks = cxx.compile_many(progs)
